@@ -91,6 +91,7 @@ var props = map[string]Prop{
 		},
 		Jobs: []Job{
 			inj("typename", "ssa/abi", "zz_verif_c07_test.go", "", "TestVerifC07TypeNameIdentity", 5000, 150000, 4, 16),
+			prog("programs", "./harness/c07", "TestC07Programs", 2, 12, 8, 16),
 		},
 	},
 	"C02": {
